@@ -8,6 +8,8 @@ check against the copy (WB_REPO) and compare with the expectation.
 expect = "violation": exit 1 and the output must mention `mention`
 expect = "silent":    exit 0 (neutral, behaviour-preserving edit)
 expect = "broken":    exit 2
+expect = "no-alarm":  exit 0 or 2, never a VIOLATION (bold behaviour-preserving rewrite)
+expect = "known-false-alarm" / "miss": recorded limitations, never a failure
 """
 import json
 import os
@@ -70,6 +72,12 @@ def run_one(m, base, keep=False):
                 ok = p.returncode == 0 and "VIOLATION" not in out
             elif exp == "broken":
                 ok = p.returncode == 2
+            elif exp == "no-alarm":
+                # a behaviour-preserving rewrite bold enough that a rule may decline (exit 2), but no check may report it
+                ok = p.returncode in (0, 2) and "VIOLATION" not in out
+            elif exp == "known-false-alarm":
+                # recorded limitation (an edit to one of several sibling copies): never a failure, good news if it turns silent
+                ok = True
             elif exp == "miss":
                 # a documented limit of the technique: recorded, never a failure; it would be good news if it turned into a report
                 ok = True
